@@ -75,7 +75,7 @@ func TestVerifP384(t *testing.T) {
 			return
 		}
 		if !sameXY(want, gx, gy) {
-			lib.Violation("C13:wrong-result:p384.Add:"+rel, monP384, lib.D("P", wstr(p.P), "Q", wstr(q.P), "want", wstr(want), "got", xyStr(gx, gy)))
+			lib.Violation("C13:wrong-result:p384.Add:"+c13ref.Coarse(rel), monP384, lib.D("rel", rel, "P", wstr(p.P), "Q", wstr(q.P), "want", wstr(want), "got", xyStr(gx, gy)))
 		}
 		if i%8 == 0 && !(p.P.Inf && q.P.Inf) {
 			sx, sy := std.Add(x1, y1, x2, y2)
@@ -112,14 +112,14 @@ func TestVerifP384(t *testing.T) {
 		if !sameXY(want, gx, gy) {
 			cl := "generic"
 			if p.P.Inf {
-				cl = "O"
+				cl = "identity-operand"
 			}
 			lib.Violation("C13:wrong-result:p384.Double:"+cl, monP384, lib.D("P", wstr(p.P), "want", wstr(want), "got", xyStr(gx, gy)))
 		}
 	})
 
-	// ---- ScalarMult / ScalarBaseMult
-	lib.Par(n, func(i int) {
+	// ---- ScalarMult / ScalarBaseMult (the big-integer reference dominates the cost: fewer cases than the formulas)
+	lib.Par(lib.Scale(400, 16000), func(i int) {
 		r := lib.NewRng("c13/p384/mul", i)
 		p := p384Pool[r.Intn(len(p384Pool))]
 		maxB := 48
@@ -150,7 +150,7 @@ func TestVerifP384(t *testing.T) {
 		if pn := lib.Try("p384.ScalarMult", kb, func() { gx, gy = cv.ScalarMult(x1, y1, kb) }); pn != nil {
 			lib.Violation("C13:panic:p384.ScalarMult", monP384, lib.D("P", wstr(p.P), "k", kb, "panic", pn.Value))
 		} else if !sameXY(want, gx, gy) {
-			lib.Violation("C13:wrong-result:p384.ScalarMult:"+kclass, monP384, lib.D("P", wstr(p.P), "dlogP", hexInt(p.K), "k", kb, "want", wstr(want), "got", xyStr(gx, gy)))
+			lib.Violation("C13:wrong-result:p384.ScalarMult:"+c13ref.Coarse(kclass), monP384, lib.D("kclass", kclass, "P", wstr(p.P), "dlogP", hexInt(p.K), "k", kb, "want", wstr(want), "got", xyStr(gx, gy)))
 		}
 		if i%8 == 0 && !p.P.Inf {
 			sx, sy := std.ScalarMult(x1, y1, kb)
@@ -163,12 +163,47 @@ func TestVerifP384(t *testing.T) {
 		if pn := lib.Try("p384.ScalarBaseMult", kb, func() { gx, gy = cv.ScalarBaseMult(kb) }); pn != nil {
 			lib.Violation("C13:panic:p384.ScalarBaseMult", monP384, lib.D("k", kb, "panic", pn.Value))
 		} else if !sameXY(wantG, gx, gy) {
-			lib.Violation("C13:wrong-result:p384.ScalarBaseMult:"+kclass, monP384, lib.D("k", kb, "want", wstr(wantG), "got", xyStr(gx, gy)))
+			lib.Violation("C13:wrong-result:p384.ScalarBaseMult:"+c13ref.Coarse(kclass), monP384, lib.D("kclass", kclass, "k", kb, "want", wstr(wantG), "got", xyStr(gx, gy)))
 		}
 		if i < 2 {
 			lib.Sample(monP384, lib.D("op", "ScalarMult", "k", kb, "kclass", kclass, "P", wstr(p.P), "got", xyStr(gx, gy)))
 		}
 	})
+
+	// ---- exhaustive ends of the scalar range: k = 0..small and N-near..N+near, on G and on one lifted point
+	{
+		sw := c13ref.SweepScalars(N, lib.Scale(300, 4000), lib.Scale(40, 600))
+		var lifted wpt
+		for _, e := range p384Pool {
+			if e.Class == "lifted" {
+				lifted = e
+				break
+			}
+		}
+		lx, ly := xy(lifted.P)
+		lib.Mandatory("p384.sweep")
+		lib.Par(len(sw), func(i int) {
+			k := sw[i]
+			kb := k.Bytes()
+			lib.Case([]byte("p384.sweep"), kb)
+			lib.Count("p384.sweep")
+			wantG := c.MulG(k)
+			var gx, gy *big.Int
+			if !guarded(monP384, "p384.ScalarBaseMult", kb, func() { gx, gy = cv.ScalarBaseMult(kb) }) {
+				return
+			}
+			if !sameXY(wantG, gx, gy) {
+				lib.Violation("C13:wrong-result:p384.ScalarBaseMult:generic", monP384, lib.D("k", kb, "want", wstr(wantG), "got", xyStr(gx, gy)))
+			}
+			wantL := c.Mul(k, lifted.P)
+			if !guarded(monP384, "p384.ScalarMult", kb, func() { gx, gy = cv.ScalarMult(lx, ly, kb) }) {
+				return
+			}
+			if !sameXY(wantL, gx, gy) {
+				lib.Violation("C13:wrong-result:p384.ScalarMult:generic", monP384, lib.D("P", wstr(lifted.P), "k", kb, "want", wstr(wantL), "got", xyStr(gx, gy)))
+			}
+		})
+	}
 
 	// ---- IsOnCurve / IsAtInfinity
 	lib.Par(n, func(i int) {
@@ -210,7 +245,7 @@ const monP384CM = "TestVerifP384CombinedMult"
 // triples built so that the two partial sums collide or cancel.
 func TestVerifP384CombinedMult(t *testing.T) {
 	p384Setup()
-	lib.Mandatory("p384.CombinedMult", "cm:Q=G,m=n", "cm:mG=nQ", "cm:mG=-nQ", "cm:unreduced", "cm:Q=O", "cm:m=0", "cm:n=0", "cm:independent", "cm:lifted-Q")
+	lib.Mandatory("p384.CombinedMult", "cm:Q=G,m=n", "cm:mG=nQ", "cm:mG=-nQ", "cm:unreduced", "cm:Q=O", "cm:m=0", "cm:n=0", "cm:independent", "cm:lifted-Q", "cm:n~N")
 	c := p384Ref
 	cv := p384.P384()
 	std := elliptic.P384()
@@ -245,8 +280,17 @@ func TestVerifP384CombinedMult(t *testing.T) {
 		triple{G, N, N, "unreduced"},
 		triple{G, nm1, bi(1), "mG=-nQ"},
 		triple{G, bi(1), nm1, "mG=-nQ"},
+		// no fixed-base part at all: n = N+26 ends in the digit 13 with 13Q accumulated
+		triple{G, bi(0), new(big.Int).Add(N, bi(26)), "n~N"},
+		triple{mkQ(bi(5)), bi(0), new(big.Int).Add(N, bi(26)), "n~N"},
 	)
-	nGen := lib.Scale(400, 40000)
+	for _, e := range p384Pool {
+		if e.Class == "lifted" {
+			cases = append(cases, triple{e, bi(0), new(big.Int).Add(N, bi(26)), "n~N"})
+			break
+		}
+	}
+	nGen := lib.Scale(400, 16000)
 	gen := make([]triple, nGen)
 	lib.Par(nGen, func(i int) {
 		r := lib.NewRng("c13/p384/cm", i)
@@ -290,6 +334,13 @@ func TestVerifP384CombinedMult(t *testing.T) {
 			mm, cl = bi(0), "m=0"
 		case 8:
 			nn, cl = bi(0), "n=0"
+		case 9: // unreduced n just above / below the order, m absent or tiny: the tail of n's recoding walks over small multiples of Q
+			nn = new(big.Int).Add(N, bi(int64(r.Intn(160)-40)))
+			mm = bi(int64(r.Intn(3)))
+			if r.Bool() {
+				mm = bi(0)
+			}
+			cl = "n~N"
 		}
 		gen[i] = triple{q, mm, nn, cl}
 	})
@@ -327,12 +378,11 @@ func TestVerifP384CombinedMult(t *testing.T) {
 		}
 		// classify: the signature of the missing P=Q branch of the Jacobian
 		// addition is an all-zero accumulator, i.e. the identity is returned
-		// for a related (Q = kG, k known) triple whose true result is not O.
+		// although the true result is not O (reached through mG = nQ partial
+		// sums for related Q, and for ANY Q through an unreduced n = N + 2d).
 		cl := "other"
-		if tc.q.K != nil && gx.Sign() == 0 && gy.Sign() == 0 && !want.Inf {
+		if gx.Sign() == 0 && gy.Sign() == 0 && !want.Inf {
 			cl = "collision"
-		} else if tc.q.K == nil {
-			cl = "unrelated-Q"
 		}
 		lib.Violation("C13:wrong-result:p384.CombinedMult:"+cl, monP384CM,
 			lib.D("Q", wstr(tc.q.P), "dlogQ", hexInt(tc.q.K), "m", mb, "n", nb, "class", tc.class, "want", wstr(want), "got", xyStr(gx, gy)))
@@ -371,7 +421,14 @@ func (s *shortGroup) elt(p c13ref.WPoint, r *lib.Rng) (group.Element, bool) {
 }
 
 func (s *shortGroup) check(op, class string, want c13ref.WPoint, got group.Element, detail map[string]any) bool {
-	b, err := got.MarshalBinary()
+	detail["case-class"], class = class, c13ref.Coarse(class)
+	var b []byte
+	var err error
+	if pn := lib.Try("group."+s.name+".MarshalBinary", nil, func() { b, err = got.MarshalBinary() }); pn != nil {
+		detail["want"], detail["panic"] = wstr(want), pn.Value
+		lib.Violation("C13:panic:group."+s.name+"."+op+":result-unmarshalable", monGroup, detail)
+		return false
+	}
 	if err != nil || !lib.Eq(b, s.marshal(want, false)) {
 		detail["want"] = wstr(want)
 		detail["got"] = lib.Hex(b)
@@ -479,7 +536,7 @@ func TestVerifGroupShort(t *testing.T) {
 				// P + (-P) = O through the library
 				sum := s.g.NewElement().Add(ep, out)
 				if !sum.IsIdentity() {
-					lib.Violation("C13:wrong-result:"+nm+".Add:P+(-P)", monGroup, det())
+					lib.Violation("C13:wrong-result:"+nm+".Add:Q=-P", monGroup, det())
 				}
 			}
 			// CMov / CSelect
@@ -493,7 +550,7 @@ func TestVerifGroupShort(t *testing.T) {
 				return
 			}
 			// Mul / MulGen (every other case: they dominate the cost)
-			if i%2 == 0 {
+			if i%2 == 0 && i < lib.Scale(400, 6000) {
 				k, kclass := c13ref.GenScalar(r, c.N, s.blen)
 				sc := s.scalar(k, r)
 				skb, _ := sc.MarshalBinary()
@@ -516,7 +573,7 @@ func TestVerifGroupShort(t *testing.T) {
 				}
 			}
 			// hash to group
-			if i%4 == 0 {
+			if i%4 == 0 && i < lib.Scale(400, 6000) {
 				msg := r.Bytes(r.Intn(70))
 				dst := r.Bytes(r.Intn(40))
 				if r.Intn(16) == 0 {
